@@ -1,26 +1,122 @@
 """argv of a worker command line for a scenario (no taskiq import: used by the generators)."""
+import random
+
 BROKER_PATH = "verif_glue:broker"
 RECEIVER_PATH = "verif_glue:receiver"
 
 
 def cli_argv(opts):
     """opts: dict with optional keys ack_type (str, spelled as given), A (int | None), P (int), N (int | None),
-    wtt (float seconds | None), no_parse (bool), no_propagate (bool), a_spelling (how an unlimited A is spelled).
+    wtt (float seconds | None), no_parse (bool), no_propagate (bool), a_spelling (how an unlimited A is spelled),
+    more (list of option groups - each a list of argv tokens, see harmless_options - for worker options that do not
+    configure the Receiver), more_modules (positional module names, placed right after the broker path), more_order
+    (int | None: seed of the shuffle that mixes all option groups; None = the old fixed order, `more` appended).
     Returns the argv list (the case keeps it, so a replay is self-contained)."""
-    argv = [BROKER_PATH, "--receiver", RECEIVER_PATH]
+    groups = [["--receiver", RECEIVER_PATH]]
     if opts.get("ack_type") is not None:
-        argv += ["--ack-type", opts["ack_type"]]
+        groups.append(["--ack-type", opts["ack_type"]])
     if "A" in opts:
         a = opts["A"]
-        argv += ["--max-async-tasks", str(opts.get("a_spelling", 0) if a is None else a)]
+        groups.append(["--max-async-tasks", str(opts.get("a_spelling", 0) if a is None else a)])
     if "P" in opts:
-        argv += ["--max-prefetch", str(opts["P"])]
+        groups.append(["--max-prefetch", str(opts["P"])])
     if opts.get("N") is not None:
-        argv += ["--max-tasks-per-child", str(opts["N"])]
+        groups.append(["--max-tasks-per-child", str(opts["N"])])
     if opts.get("wtt") is not None:
-        argv += ["--wait-tasks-timeout", repr(float(opts["wtt"]))]
+        groups.append(["--wait-tasks-timeout", repr(float(opts["wtt"]))])
     if opts.get("no_parse"):
-        argv += ["--no-parse"]
+        groups.append(["--no-parse"])
     if opts.get("no_propagate"):
-        argv += ["--no-propagate-errors"]
-    return argv
+        groups.append(["--no-propagate-errors"])
+    groups += [list(g) for g in opts.get("more") or []]
+    if opts.get("more_order") is not None:
+        random.Random(opts["more_order"]).shuffle(groups)
+    return [BROKER_PATH] + list(opts.get("more_modules") or []) + [t for g in groups for t in g]
+
+
+# ---------------------------------------------------------------------------------------------------------------------
+# Worker options of taskiq/cli/worker/args.py that configure something else than the Receiver (the pool that runs sync
+# functions, the process manager, logging, task discovery, broker shutdown): whatever their value, the Receiver that
+# start_listen builds must be the one the Receiver-options alone describe.
+LOG_LEVELS = ["INFO", "WARNING", "DEBUG", "ERROR", "FATAL"]
+POOL_SIZES = [1, 2, 3, 3, 4, 5, 8, 16]
+
+
+def _spell(r, opt, value):
+    """`--opt value` | `--opt=value`"""
+    return [opt, str(value)] if r.random() < .7 else ["%s=%s" % (opt, value)]
+
+
+def harmless_options(r, pool_p=.55):
+    """Draw worker options that must not change how the Receiver behaves.  Returns (groups, modules, facts) where groups
+    is a list of token groups for cli_argv(more=...), modules the positional module names, facts what the evidence counts:
+    a dict(threads, procs, process_pool, n) - `threads` / `procs` = the explicitly given size of the sync pool."""
+    groups, facts = [], dict(threads=None, procs=None, process_pool=False)
+    if r.random() < pool_p:
+        k = r.random()
+        if k < .6:
+            facts["threads"] = r.choice(POOL_SIZES)
+        elif k < .8:
+            facts["procs"] = r.choice(POOL_SIZES)             # without --use-process-pool: ignored altogether
+        elif k < .9:
+            facts["threads"], facts["procs"] = r.choice(POOL_SIZES), r.choice(POOL_SIZES)
+        else:
+            facts["procs"], facts["process_pool"] = r.choice(POOL_SIZES[:6]), True
+            if r.random() < .4:
+                facts["threads"] = r.choice(POOL_SIZES)
+        if facts["threads"] is not None:
+            groups.append(_spell(r, "--max-threadpool-threads", facts["threads"]))
+        if facts["procs"] is not None:
+            groups.append(_spell(r, "--max-process-pool-processes", facts["procs"]))
+        if facts["process_pool"]:
+            groups.append(["--use-process-pool"])
+    elif r.random() < .1:
+        facts["process_pool"] = True
+        groups.append(["--use-process-pool"])                  # pool size left to the default
+    for p, make in ((.35, lambda: _spell(r, r.choice(["--workers", "-w"]), r.choice([1, 2, 3, 4, 8]))),
+                    (.25, lambda: _spell(r, "--shutdown-timeout", r.choice([1, 5, 5.0, 0.5, 30, 2.5]))),
+                    (.2, lambda: _spell(r, "--hardkill-count", r.choice([0, 1, 3, 10]))),
+                    (.2, lambda: _spell(r, "--max-fails", r.choice([-1, 0, 1, 3, 100]))),
+                    (.3, lambda: _spell(r, "--log-level", r.choice(LOG_LEVELS))),
+                    (.1, lambda: _spell(r, "--log-format", r.choice(["%(message)s", "[%(levelname)s] %(name)s: %(message)s"]))),
+                    (.15, lambda: ["--no-configure-logging"]),
+                    (.1, lambda: _spell(r, r.choice(["--tasks-pattern", "-tp"]), r.choice(["**/tasks.py", "jobs/*.py"]))),
+                    (.1, lambda: [r.choice(["--fs-discover", "-fsd"])]),
+                    (.08, lambda: [r.choice(["--reload", "-r"])]),
+                    (.08, lambda: ["--do-not-use-gitignore"])):
+        if r.random() < p:
+            groups.append(make())
+    modules = r.choice([[], [], [], ["verif_glue.tasks"], ["verif_glue.tasks", "verif_glue.more_tasks"]])
+    r.shuffle(groups)
+    facts["n"] = len(groups) + (1 if modules else 0)
+    return groups, modules, facts
+
+
+def pool_facts(argv):
+    """the explicitly given sync-pool size of an argv (evidence only): dict(threads, procs, process_pool)"""
+    out = dict(threads=None, procs=None, process_pool=False)
+    names = {"--max-threadpool-threads": "threads", "--max-process-pool-processes": "procs"}
+    for k, t in enumerate(argv):
+        head, _, val = t.partition("=")
+        if head in names:
+            out[names[head]] = int(val) if val else int(argv[k + 1])
+        elif t == "--use-process-pool":
+            out["process_pool"] = True
+    return out
+
+
+def add_harmless(argv, r):
+    """an existing argv (list produced by cli_argv) with harmless options mixed in; returns (argv, facts)"""
+    groups, modules, facts = harmless_options(r)
+    head, rest = list(argv[:1]), list(argv[1:])
+    # split the old tail into option groups: a token that starts with `-` (and is not a negative number) opens a group
+    old = []
+    for t in rest:
+        if t.startswith("-") and not t.lstrip("-").replace(".", "", 1).isdigit() or not old:
+            old.append([t])
+        else:
+            old[-1].append(t)
+    allg = old + groups
+    if r.random() < .6:
+        r.shuffle(allg)
+    return head + modules + [t for g in allg for t in g], facts
